@@ -16,6 +16,11 @@ def run(res, tier):
     # chunks go back to): every connection's handlers read that connection's own stream, from its first byte (clause X2)
     import check_c08
     check_c08.conc_add_to(res, tier, ("X2",), "C01")
+    # UDP: a virtual connection's stream is its datagrams in arrival order; datagrams larger than the prefetch chunk / than the
+    # handler's buffer are read in pieces (packetConn.Read keeps the rest) - the handler must get every byte of them, once, in
+    # order (clauses U1, U2, U2b of L4UdpTrace on the 9000-byte scenarios of the C09 grid, real servePacket loop)
+    import check_c09
+    check_c09.free_add_to(res, tier, ("U1", "U2", "U2b"), "C01", only=lambda g: g["size"] == 9000)
     res.coverage["checker_cmd"] = "tlc L4Router_MC.tla (c01: shipped wrapping handlers, real sizes) + vdrive router-replay/router-random + tlc L4RouterTrace.tla"
 
 
